@@ -1,5 +1,7 @@
 #!/bin/sh
-# Offline setup: build the gofail CLI from the module cache and warm the build cache.
+# Offline setup: build the gofail CLI from the module cache and warm the build cache
+# (engines are rebuilt by every check from /repo's working tree; this only makes the
+# dependency packages - nats-server, race runtime - hot).
 set -e
 cd "$(dirname "$0")"
 GO=/root/go/pkg/mod/golang.org/toolchain@v0.0.1-go1.25.4.linux-amd64/bin/go
@@ -7,6 +9,8 @@ export GOTOOLCHAIN=local GOFLAGS=-mod=mod GOPROXY=off
 unset GOSUMDB
 mkdir -p bin evidence replays
 (cd harness && $GO build -o ../bin/gofail go.etcd.io/gofail) || echo "gofail CLI not built (amplifier sites stay inert)"
-(cd harness && $GO vet ./h >/dev/null 2>&1 || true)
-(cd harness && $GO test -c -tags verif -trimpath -o /dev/null ./sim) 
+for e in sim pure natseng; do
+  (cd harness && $GO test -c -tags verif -trimpath -o /dev/null ./$e)
+done
+(cd harness && $GO test -c -race -tags verif -trimpath -o /dev/null ./rt)
 echo setup ok
